@@ -154,20 +154,11 @@ Qed.
 Lemma imp_acc_set_av h d accs hist a md :
   NoDup (map a_addr accs) ->
   map av (fst (imp_acc_set h d (accs, hist) a md)) = av_upsert (map av accs) a md d.
-Proof.
-  intros Hnd. unfold imp_acc_set, av_upsert. rewrite find_account_has.
-  destruct (find_account accs a) as [x|] eqn:F.
-  - destruct (find_account_some _ _ _ F) as [Hin Hx].
-    destruct (mcontains (a_meta x) md) eqn:N; cbn [fst].
-    + rewrite map_map. rewrite <- (map_id accs) at 1. rewrite map_map. apply map_ext_in. intros y Hy. unfold av_set, av, av_addr. cbn [fst snd].
-      destruct (String.eqb (a_addr y) a) eqn:E; [|reflexivity]. apply String.eqb_eq in E.
-      assert (y = x) by (apply (nodup_addr_unique accs); [exact Hnd | exact Hin | exact Hy | congruence]). subst y.
-      rewrite (ReplayProofs.mmerge_contained _ _ N). reflexivity.
-    + rewrite !map_map. apply map_ext. intros y. unfold av_set, av, av_addr. cbn [fst snd].
-      destruct (String.eqb (a_addr y) a); cbn [andb]; [|reflexivity].
-      destruct (mcontains (a_meta y) md) eqn:Ny; cbn [negb]; [|reflexivity]. rewrite (ReplayProofs.mmerge_contained _ _ Ny). reflexivity.
-  - cbn [fst]. rewrite map_app. reflexivity.
-Qed.
+Proof. intros Hnd. unfold imp_acc_set. rewrite (upsert_account_av h d accs hist a md (Some d) (Some d) (Some d) Hnd). reflexivity. Qed.
+
+(* the import of SET_METADATA on an account IS the write at the log date *)
+Lemma imp_acc_set_is_write h d st a md : imp_acc_set h d st a md = upsert_account h d st a md (Some d) None None.
+Proof. unfold imp_acc_set, upsert_account. destruct st as [accs hist]. reflexivity. Qed.
 
 (* the fold of UpsertAccounts over the accounts of a transaction *)
 Lemma upsert_fold_av h now (g : addr -> meta) first ins upd (l : list addr) : forall accs hist,
@@ -347,7 +338,7 @@ Qed.
    (UpdateAccountsMetadata dated [now] = the log date) *)
 Lemma acc_set_sim f mv s c now a md :
   Sim f mv false s c ->
-  Sim f mv false (with_accounts s (upsert_account (f_acc_hist f) now (s_accounts s, s_ahist s) a md None None None))
+  Sim f mv false (with_accounts s (upsert_account (f_acc_hist f) now (s_accounts s, s_ahist s) a md (Some now) None None))
                  (with_accounts c (imp_acc_set (f_acc_hist f) now (s_accounts c, s_ahist c) a md)).
 Proof.
   intros [Hv Ht Hh Hl Hm Ha Hav Hnd]. constructor; unfold with_accounts; cbn [s_vols s_txs s_thist s_logs s_moves s_accounts s_ahist s_next_seq]; try assumption.
